@@ -45,6 +45,15 @@ class Source(object):
       return -1
     return cmp(self.to_tuple(), other.to_tuple())
 
+  def __eq__(self, other):
+    if not isinstance(other, Source):
+      return NotImplemented
+    return self.to_tuple() == other.to_tuple()
+
+  def __ne__(self, other):
+    result = self.__eq__(other)
+    return result if result is NotImplemented else not result
+
   def __hash__(self):
     return hash((self.method, self.service, self.endpoint, self.client_id))
 
